@@ -376,7 +376,7 @@ func driveC15(args []string) error {
 	// centre is the centre / the end of the radius vector / the end of an axis / a point of the perpendicular shows the
 	// colour of offset 0 / 1 / 1 / the same offset
 	for spread := 0; spread < 4; spread++ {
-		for kind := 0; kind < 3; kind++ {
+		for kind := 0; kind < 4; kind++ {
 			rr := &RecRaster{}
 			var z render.Renderer
 			z.SetRasterizer(rr, image.Rect(0, 0, 8, 8))
@@ -394,9 +394,14 @@ func driveC15(args []string) error {
 			case 1:
 				err = g.SetEllipticalGradient(2.5, 2.5, 2, 0, 0, 1, sp, gs)
 				probes = [][2]int{{2, 2}, {4, 2}, {0, 2}, {2, 3}, {2, 1}, {3, 2}, {2, 4}, {6, 2}}
-			default:
+			case 2:
 				err = g.SetLinearGradient(0.5, 0.5, 4.5, 0.5, sp, gs)
 				probes = [][2]int{{0, 0}, {4, 0}, {2, 0}, {2, 3}, {2, 7}, {5, 0}, {6, 5}, {7, 7}, {4, 6}}
+			default:
+				// the line starts inside the picture (round 10): pixels before its start have negative offsets (-1, -1/2), the
+				// ones beyond its end offsets up to 5/2 - what the spread makes of both sides
+				err = g.SetLinearGradient(2.5, 0.5, 4.5, 0.5, sp, gs)
+				probes = [][2]int{{0, 0}, {1, 0}, {2, 0}, {3, 0}, {4, 0}, {5, 0}, {6, 0}, {7, 0}, {0, 5}, {1, 7}, {6, 3}}
 			}
 			if err != nil {
 				return err
@@ -412,7 +417,7 @@ func driveC15(args []string) error {
 				}
 				if gc, ok := c.img.(raster.GradientConfig); ok {
 					for _, p := range probes {
-						emitPix("Generator."+[]string{"SetCircularGradient", "SetEllipticalGradient", "SetLinearGradient"}[kind], c.img, gc, nil, p[0], p[1])
+						emitPix("Generator."+[]string{"SetCircularGradient", "SetEllipticalGradient", "SetLinearGradient", "SetLinearGradient"}[kind], c.img, gc, nil, p[0], p[1])
 					}
 					stats["helpers"]++
 				}
